@@ -276,6 +276,62 @@ def named_table_discrepancies():
     return _tables_checked[0]
 
 
+_exported_checked = []
+
+
+def exported_curve_roundtrips():
+    """Every `Curve` object the package exports (an attribute of ecdsa or
+    ecdsa.curves) that the frozen table does not know - a curve added by a
+    change - must still round-trip its keys through DER and PEM: the model has
+    no parameters for it, so this is the library against itself.  Returns a
+    list of problem strings (empty when all is well); computed once per
+    process."""
+    if _exported_checked:
+        return _exported_checked[0]
+    import ecdsa
+    from ecdsa import curves as lc, keys as lk
+    known = set(c.name for c in mcurves.named())
+    seen = {}
+    for mod in (lc, ecdsa):
+        for name, v in vars(mod).items():
+            if isinstance(v, lc.Curve) and v.name not in known:
+                seen[id(v)] = (name, v)
+    bad = []
+    for name, c in sorted(seen.values(), key=lambda t: t[0]):
+        try:
+            d = 1 + (0x1234567 % (int(c.order) - 1))
+            sk = lk.SigningKey.from_secret_exponent(d, c)
+            vk = sk.verifying_key
+            for what, back in (
+                    ("sk ssleay der", lambda: lk.SigningKey.from_der(
+                        sk.to_der(format="ssleay"))),
+                    ("sk pkcs8 der", lambda: lk.SigningKey.from_der(
+                        sk.to_der(format="pkcs8"))),
+                    ("sk pem", lambda: lk.SigningKey.from_pem(sk.to_pem())),
+                    ("vk der", lambda: lk.VerifyingKey.from_der(vk.to_der())),
+                    ("vk pem", lambda: lk.VerifyingKey.from_pem(vk.to_pem())),
+                    ("vk string", lambda: lk.VerifyingKey.from_string(
+                        vk.to_string("compressed"), c))):
+                try:
+                    k2 = back()
+                except Exception as ex:
+                    bad.append("%s: %s of a key on the exported curve %s "
+                               "cannot be loaded back: %s(%s)" % (
+                                   name, what, c.name, type(ex).__name__, ex))
+                    break
+                if k2.curve is not c or \
+                        bytes(k2.to_string()) != bytes(
+                            (sk if what.startswith("sk") else vk).to_string()):
+                    bad.append("%s: %s round trip on the exported curve %s "
+                               "gives another key or curve" % (name, what,
+                                                               c.name))
+                    break
+        except Exception as ex:
+            bad.append("%s: %s(%s)" % (name, type(ex).__name__, ex))
+    _exported_checked.append(bad)
+    return bad
+
+
 _toy_der = []
 
 
